@@ -261,6 +261,26 @@ def hashed_names(repo: Repo, R):
         R.check(okq, "C09.5-distinct-modules-distinct-names", key_of(fe, f"qualified-{k_}"), fe.site,
                 f"a {k_}-valued parameter is encoded through `{w_}`" + (f" and the unique name of its parameters" if k_ == "ExternalModuleCall" else "") + f": {vals}",
                 why=f"two {k_}s of one name from two Python modules encode alike: the generated modules of `Gen(unit=a.res(..))` and `Gen(unit=b.res(..))` get one name, and the design is refused (or exported under one name)")
+    # numbers are encoded by their exact value, as text: equal values (however written) one encoding, unequal values two.
+    # The default encoder turns a Decimal into a float, and a Prefixed into its (number, prefix) pair.
+    from . import c14 as _c14
+    nrm = _c14.normaliser(repo)
+    nname_ = nrm.name if nrm is not None else "_exact"
+    want_n = {"Prefixed": f"{nname_}({oa})", "Decimal": f"{oa}"}
+    got_n: Dict[str, List[str]] = {}
+    for r_ in shared.returns_of(fe.node):
+        if r_.value is None:
+            continue
+        ks_ = shared.admissible_kinds(fe.node, r_, oa, universe | {"Prefixed", "Decimal"})
+        for v, _c in shared.alternatives(fe.node, r_.value, shared.path_conditions(fe.node, r_), at=r_):
+            for k_ in ks_ & set(want_n):
+                got_n.setdefault(k_, []).append(ast.unparse(v))
+    for k_, w_ in want_n.items():
+        vals = got_n.get(k_, [])
+        okn = bool(vals) and all(f"str({w_}.normalize())" in t_ and "float(" not in t_ for t_ in vals)
+        R.check(okn, "C09.7-equal-values-one-cache-entry", key_of(fe, f"exact-{k_}"), fe.site,
+                f"a {k_} value is encoded as the normalised text of its exact value (`str({w_}.normalize())`): {[t_[:60] for t_ in vals]}",
+                why="`1000*m` and `1*UNIT` are one cached module named after whichever spelling was called first; Decimal('0.1000000000000000001') and Decimal('0.1') are two modules under one md5 name")
     R.check(ok and mods, rule, key_of(fe, "encoder"), fe.site, f"the encoder names Module/ExternalModule/Generator values by their qualified name ({mods}) and hands everything else to the (raising) default encoder ({ok})", why="module-valued parameters are named by their address-bearing repr")
 
 
